@@ -11,6 +11,7 @@ mod c02;
 mod c08;
 mod c13;
 mod c14;
+mod c15;
 mod c20;
 
 pub struct Report {
@@ -46,6 +47,7 @@ fn main() {
         "C02" => c02::run(&mut r),
         "C08" => c08::run(&mut r),
         "C13" => c13::run(&mut r),
+        "C15" => c15::run(&mut r),
         _ => {}
     }
     println!("{}", json!({"property": prop, "cases": r.cases, "failing": r.failing}));
